@@ -397,8 +397,14 @@ class SqlImpl(TableImpl):
             cnt = dict()
             name_in_subquery = dict()
 
+            # The columns the table is grouped by are needed by a later `summarize`
+            # or window function, even if no expression mentions them.
+            needed = list(needed_cols.keys()) + [
+                col._uuid for col in query.partition_by if col._uuid not in needed_cols
+            ]
+
             # resolve potential column name collisions in the subquery
-            for uid in needed_cols.keys():
+            for uid in needed:
                 if uid in sqa_expr:
                     name = sqa_expr[uid].name
                     if c := cnt.get(name):
@@ -413,7 +419,7 @@ class SqlImpl(TableImpl):
             table = cls.compile_query(table, query, sqa_expr).subquery()
             sqa_expr = {
                 uid: sqa.label(name_in_subquery[uid], table.columns.get(name_in_subquery[uid]))
-                for uid in needed_cols.keys()
+                for uid in needed
                 if uid in sqa_expr
             }
 
